@@ -602,6 +602,13 @@ public:
                 solve((long)g.pick(std::vector<long>{20, 100, 500, 2000, budget}), false);
             }
         }
+        // (drawn last) C03: the solve after clear() + new problem definition is compared with the first solve of a never-used
+        // planner under one random stream (see plansim: hook H1, all-draws mode)
+        if (o.prop == "C03")
+            for (size_t ri = 0; ri + 1 < ops.size(); ri++)
+                if (ops.at(ri).gets("op") == "newquery" && ops.at(ri).gets("how") != "clearquery-then-set" && ops.at(ri + 1).gets("op") == "solve" &&
+                    !ops.at(ri + 1).has("fault") && g.chance(0.6))
+                    ops.at(ri + 1)["ref_stream"] = (long)g.range(1, 2000000000);
         plan["ops"] = ops;
         return plan;
     }
@@ -918,6 +925,7 @@ sim::CaseResult CtrlSim::runCase(const sim::Options &o, const Json &plan)
         c.w->cpuBudget = c20 ? 1e9 : (o.thorough() ? 15.0 : 4.0);
         size_t cur = 0;
         std::vector<const ob::State *> foreign;  // start / goal states of the previous query
+        std::vector<std::shared_ptr<world::Query>> retired;
         for (size_t oi = 0; oi < ops.size() && res.vclass.empty(); oi++)
         {
             const Json &op = ops[oi];
@@ -956,6 +964,13 @@ sim::CaseResult CtrlSim::runCase(const sim::Options &o, const Json &plan)
                 res.faults[kind == "clear" ? "F10-clear" : "F10-new-problem-definition"]++;
                 std::string how = op.gets("how", "clear");
                 size_t next = kind == "newquery" ? (size_t)op.geti("query") % c.qs.size() : cur;
+                if (kind == "newquery" && c03 && oi + 1 < ops.size() && ops[oi + 1].has("ref_stream"))
+                {
+                    // goal objects carry state (GoalStates cycles through its states): the planner gets a never-used
+                    // problem definition of the same query, as the never-used reference planner will
+                    retired.push_back(c.qs[next]);
+                    c.qs[next] = world::makeQuery(c.w, plan[next == 0 ? "query" : "query2"]);
+                }
                 if (how == "set-then-clear")
                 {
                     pl->setProblemDefinition(c.qs[next]->pdef);
@@ -1010,9 +1025,25 @@ sim::CaseResult CtrlSim::runCase(const sim::Options &o, const Json &plan)
             ob::PlannerSolution topBefore(nullptr);
             bool had = q.pdef->getSolution(topBefore);
             auto before = q.pdef->getSolutions();
+            const bool refRun = c03 && op.has("ref_stream") && before.empty();
+            long drawsA = 0;
+            struct DrawsGuard
+            {
+                ~DrawsGuard()
+                {
+                    rngfault::allDrawsOff();
+                }
+            } drawsGuard;
+            if (refRun)
+            {
+                if (!pl->isSetup())
+                    pl->setup();
+                rngfault::allDrawsOn((uint64_t)op.geti("ref_stream"));
+            }
             try
             {
                 status = pl->solve(ptc);
+                drawsA = rngfault::allDrawsOff();
             }
             catch (world::BudgetExhausted &)
             {
@@ -1139,6 +1170,98 @@ sim::CaseResult CtrlSim::runCase(const sim::Options &o, const Json &plan)
                         for (auto *f : foreign)
                             if (res.vclass.empty() && c.w->ss->equalStates(x, f))
                                 res.violate(P + ".state-of-previous-query-in-path" + sfx, when + ": a path reported for the new query contains a start/goal state of the previous query");
+                }
+                if (refRun && res.vclass.empty())
+                {
+                    auto refQ = world::makeQuery(c.w, plan[cur == 0 ? "query" : "query2"]);
+                    ob::PlannerPtr ref = makePlanner(c, plan);
+                    ref->setProblemDefinition(refQ->pdef);
+                    ob::PlannerStatus rs;
+                    long rEvals = 0, rAfter = 0, drawsB = 0;
+                    bool rFired = false, refOk = true;
+                    ob::PlannerTerminationCondition rptc([&] {
+                        if (rFired)
+                        {
+                            if (++rAfter > 10000)
+                                throw StopSolve();
+                            return true;
+                        }
+                        if (rEvals++ >= k || ((rEvals & 63) == 0 && world::cpuSeconds() > c.w->cpuBudget))
+                            rFired = true;
+                        return rFired;
+                    });
+                    try
+                    {
+                        ref->setup();
+                        c.w->validBudget = c.w->validCalls.load() + stepBudget;
+                        world::ledger().armed = true;
+                        rngfault::allDrawsOn((uint64_t)op.geti("ref_stream"));
+                        rs = ref->solve(rptc);
+                        drawsB = rngfault::allDrawsOff();
+                    }
+                    catch (world::BudgetExhausted &)
+                    {
+                        refOk = false;
+                    }
+                    catch (StopSolve &)
+                    {
+                        refOk = false;
+                    }
+                    catch (ompl::Exception &)
+                    {
+                        refOk = false;
+                    }
+                    rngfault::allDrawsOff();
+                    c.w->validBudget = -1;
+                    world::ledger().armed = false;
+                    if (!refOk)
+                    {
+                        res.inconclusive = true;
+                        res.probes["reference-first-solve-abandoned"]++;
+                        res.trace = h;
+                        sim::finishCaseNow(res);
+                    }
+                    res.probes["solve-after-clear-compared-with-a-first-solve"]++;
+                    auto refSols = refQ->pdef->getSolutions();
+                    std::string diff;
+                    if ((ob::PlannerStatus::StatusType)rs != stt)
+                        diff += " status '" + status.asString() + "' vs '" + rs.asString() + "'";
+                    if (rEvals != evals)
+                        diff += fmt(" termination-condition evaluations %ld vs %ld", evals, rEvals);
+                    if (drawsA != drawsB)
+                        diff += fmt(" random draws consumed %ld vs %ld", drawsA, drawsB);
+                    if (refSols.size() != added.size())
+                        diff += fmt(" solutions added %zu vs %zu", added.size(), refSols.size());
+                    else if (!added.empty())
+                    {
+                        auto *pa = dynamic_cast<oc::PathControl *>(afterSols[0].path_.get());
+                        auto *pb = dynamic_cast<oc::PathControl *>(refSols[0].path_.get());
+                        if (pa && pb)
+                        {
+                            if (pa->getStateCount() != pb->getStateCount())
+                                diff += fmt(" best path has %zu vs %zu states", pa->getStateCount(), pb->getStateCount());
+                            else
+                            {
+                                for (size_t i2 = 0; i2 < pa->getStateCount(); i2++)
+                                    if (!c.w->ss->equalStates(pa->getState((unsigned)i2), pb->getState((unsigned)i2)))
+                                    {
+                                        diff += fmt(" best paths differ from state %zu on", i2);
+                                        break;
+                                    }
+                                if (pa->getControlDurations() != pb->getControlDurations())
+                                    diff += " control durations differ";
+                            }
+                        }
+                        if (afterSols[0].approximate_ != refSols[0].approximate_)
+                            diff += " approximate flag differs";
+                    }
+                    if (!diff.empty())
+                        res.violate(P + ".solve-after-clear-unlike-a-first-solve" + sfx,
+                                    when + ": after clear() and a new problem definition, solve() differs from the first solve() of a never-used planner given the "
+                                           "same query, the same k and the same random stream (cleared vs never used):" + diff);
+                    refSols.clear();
+                    ref.reset();
+                    refQ.reset();
                 }
             }
         }
